@@ -61,7 +61,8 @@ def tree_hash(root, extra=()):
         h.update(hashlib.sha256(fh.read()).digest())
     r = _sh(["rustc", "+nightly", "-vV"])
     h.update(r.stdout.encode())
-    h.update(os.path.abspath(root).encode())
+    # (the location of the tree is not part of the key: the exported facts carry crate-relative paths only, so a scratch copy with the same
+    #  content - the same stored patch applied for another property's self-test - shares the facts)
     for e in extra:
         h.update(str(e).encode())
     return h.hexdigest()[:24]
